@@ -575,7 +575,8 @@ impl crate::save::upload::Table for Profile {
         let mut reader = BufReader::new(file);
         let ref mut buffer = [0u8; 2];
         reader.seek(SeekFrom::Start(19)).expect("seek past header");
-        while reader.read_exact(buffer).is_ok() {
+        loop {
+            reader.read_exact(buffer).expect("field count or trailer");
             match u16::from_be_bytes(buffer.clone()) {
                 6 => {
                     reader.read_u32::<BE>().expect("past path length");
